@@ -204,3 +204,50 @@ def flip_else_module(src: str) -> str:
     tree = ast.parse(src)
     _FlipElse().visit(tree)
     return ast.unparse(ast.fix_missing_locations(tree)) + "\n"
+
+
+def _pure(e: ast.AST) -> bool:
+    return not any(isinstance(x, (ast.Call, ast.Await, ast.Yield, ast.YieldFrom, ast.NamedExpr, ast.Lambda, ast.ListComp, ast.SetComp,
+                                  ast.DictComp, ast.GeneratorExp)) for x in ast.walk(e))
+
+
+def _names(e: ast.AST):
+    return {x.id for x in ast.walk(e) if isinstance(x, ast.Name)}
+
+
+class _Swapper(ast.NodeTransformer):
+    """Adjacent independent assignments `a = e1; b = e2` (plain names, call-free values, neither reads the other's
+    target) are exchanged."""
+
+    def __init__(self):
+        self.n = 0
+
+    def _block(self, stmts):
+        out = list(stmts)
+        i = 0
+        while i + 1 < len(out):
+            a, b = out[i], out[i + 1]
+            if all(isinstance(s, ast.Assign) and len(s.targets) == 1 and isinstance(s.targets[0], ast.Name) and _pure(s.value) for s in (a, b)):
+                ta, tb = a.targets[0].id, b.targets[0].id
+                if ta != tb and ta not in _names(b.value) and tb not in _names(a.value):
+                    out[i], out[i + 1] = b, a
+                    self.n += 1
+                    i += 2
+                    continue
+            i += 1
+        return out
+
+    def generic_visit(self, node):
+        super().generic_visit(node)
+        for fld in ("body", "orelse", "finalbody"):
+            v = getattr(node, fld, None)
+            if isinstance(v, list) and v and isinstance(v[0], ast.stmt) and not isinstance(node, ast.Module) and not isinstance(node, ast.ClassDef):
+                setattr(node, fld, self._block(v))
+        return node
+
+
+def swap_module(src: str) -> str:
+    tree = ast.parse(src)
+    sw = _Swapper()
+    sw.visit(tree)
+    return ast.unparse(ast.fix_missing_locations(tree)) + "\n"
